@@ -6,13 +6,17 @@
                overwrites its out-parameter: the text of one element never depends on the previous element
  R3 constants  real formatting constants / buffer, enumeration dots (shared with C09 R4) and whole-token item match (C09 R6)
  R4 order      WriteData / WriteWorkingData write the master list in index order 0..n-1, once per index
+ R5 select i/o every kind of SELECT member is written, by both emitted writers of a generated SELECT class
+               (STEPwrite_content, STEPwrite_verbose), with the run-time writer that pairs with the reader the emitted
+               STEPread_content uses for that kind (ReadReal <-> WriteReal, ReadInteger <-> stream insertion, ...)
 """
+import re
 from engines import flatten_switch, call_args
 from ir import walk, strip, expr_str, access_path
 from rules import c09
 
 PID = "C01"
-UNITS = dict(components={"clstepcore", "cldai", "clutils", "cleditor"})
+UNITS = dict(components={"clstepcore", "cldai", "clutils", "cleditor", "exp2cxx"})
 EXPLANATION = (
     "Structural clauses of the round trip: (R1) sibling agreement of the dispatch on PrimitiveType in "
     "STEPattribute::{STEPread, STEPwrite, asStr, set_null, is_null, ShallowCopy, StrToVal, ValidLevel}: every kind "
@@ -21,7 +25,11 @@ EXPLANATION = (
     "asStr(std::string&): on every path the first effect of each override (through the summaries of the value writers "
     "it forwards to) on the string parameter is an overwrite, never an append, so the shared scratch string of the "
     "element loops cannot carry text from one element to the next; (R3) writer constants and enumeration item "
-    "matching (rules of C09); (R4) the data writers iterate the instance list from 0 to count-1 in increasing order. "
+    "matching (rules of C09); (R4) the data writers iterate the instance list from 0 to count-1 in increasing order; "
+    "(R5) in the generator of SELECT classes the three switches over the member's type kind that emit STEPread_content, "
+    "STEPwrite_content and STEPwrite_verbose agree kind by kind: a kind read with ReadReal is written with WriteReal by both "
+    "writers, ReadInteger with a stream insertion, ReadEntityRef with STEPwrite_reference, STEPread with STEPwrite "
+    "(reader/writer pairs frozen from the run-time library). "
     "Not decided: value preservation (escapes, numeric round trip), byte equality of the second write, header and "
     "complex-instance serialisation.")
 
@@ -323,7 +331,94 @@ def r4_order(prog, res):
     res.floor("R4.write_order", "data writer loops", n, 2)
 
 
+# reader primitive -> the writer primitive that prints what it parses (clstepcore/read_func.cc, sdai*.cc)
+IO_PAIRS = {"ReadReal": "WriteReal", "ReadInteger": "<<", "ReadEntityRef": "STEPwrite_reference", "STEPread": "STEPwrite",
+            "STEPread_content": "STEPwrite"}
+READ_TOKENS = ("ReadReal", "ReadInteger", "ReadEntityRef", "STEPread_content", "STEPread")
+WRITE_TOKENS = ("WriteReal", "STEPwrite_reference", "STEPwrite_verbose", "STEPwrite")
+
+
+def _arm_tokens(f, sw, tokens):
+    """-> {label value / 'default': set of tokens found in the text emitted by that arm}"""
+    out = {}
+    items = flatten_switch(sw)
+    for i, (labs, stmt) in enumerate(items):
+        if not labs:
+            continue
+        body = []
+        for _, st in items[i:]:
+            if st is not None:
+                body.append(st)
+                if any(y["k"] in ("Break", "Return") for y in walk(st)):
+                    break
+        text = ""
+        for st in body:
+            for c in walk(st):
+                if c["k"] == "Call" and (c.get("fn") or "") == "fprintf":
+                    a = call_args(c)
+                    if len(a) >= 2 and strip(a[1]) is not None and strip(a[1])["k"] == "Str":
+                        text += strip(a[1])["s"]
+        found = set()
+        rest = text
+        for t in tokens:
+            if re.search(r"\b%s\b" % re.escape(t), rest):
+                found.add(t)
+                rest = re.sub(r"\b%s\b" % re.escape(t), " ", rest)
+        if re.search(r"<<\s*_%s", text):
+            found.add("<<")
+        for l in labs:
+            out[l] = found
+    return out
+
+
+def r5_select_io(prog, res):
+    fs = prog.fn("TYPEselect_lib_part21")
+    if not fs:
+        res.broke("anchor vanished: TYPEselect_lib_part21 (generator of the Part 21 i/o of SELECT classes)")
+        return
+    f = fs[0]
+    heads = []
+    for c in f.calls():
+        if (c.get("fn") or "") == "fprintf":
+            a = call_args(c)
+            if len(a) >= 2 and strip(a[1]) is not None and strip(a[1])["k"] == "Str":
+                m = re.search(r"%s::(\w+)\s*\(", strip(a[1])["s"])
+                if m:
+                    heads.append(((c["l"], c.get("c", 0)), m.group(1)))
+    heads.sort()
+    by_fn = {}
+    for sw in [x for x in f.walk() if x["k"] == "Switch"]:
+        prev = [h for pos, h in heads if pos <= (sw["l"], sw.get("c", 0))]
+        if prev:
+            by_fn.setdefault(prev[-1], sw)
+    need = ("STEPread_content", "STEPwrite_content", "STEPwrite_verbose")
+    if any(k not in by_fn for k in need):
+        res.broke("R5: could not find the kind switch of %s in TYPEselect_lib_part21" % [k for k in need if k not in by_fn])
+        return
+    kinds = {v: k for k, v in next((items for items in prog.enums.values() if "number_" in items), {}).items()}
+    rd = _arm_tokens(f, by_fn["STEPread_content"], READ_TOKENS)
+    n = 0
+    for wname in ("STEPwrite_content", "STEPwrite_verbose"):
+        wr = _arm_tokens(f, by_fn[wname], WRITE_TOKENS)
+        for lab, rt in sorted(rd.items(), key=lambda kv: str(kv[0])):
+            if lab == "default" or not rt:
+                continue
+            wt = wr.get(lab, wr.get("default", set()))
+            want = {IO_PAIRS[t] for t in rt if t in IO_PAIRS}
+            have = {("STEPwrite" if t == "STEPwrite_verbose" else t) for t in wt}
+            n += 1
+            kn = kinds.get(lab, str(lab))
+            ok = bool(want) and want <= have and not (("WriteReal" in have) != ("WriteReal" in want))
+            res.add("R5.select_member_io_pair", "R5|src/exp2cxx/selects.c|TYPEselect_lib_part21|%s|%s" % (wname, kn), f.where(by_fn[wname]), ok,
+                    "%s members are read with %s and written by %s with %s" % (kn, sorted(rt), wname, sorted(wt)) if ok else
+                    "%s members are read with %s, which pairs with %s, but the emitted %s writes them with %s: the value is not "
+                    "written in the form the reader parses back to the same value (e.g. a REAL through a plain stream insertion loses "
+                    "digits and the decimal point)" % (kn, sorted(rt), sorted(want), wname, sorted(wt) or "nothing recognised"))
+    res.floor("R5.select_member_io_pair", "(writer, kind) pairs of the SELECT emitter", n, 20)
+
+
 def run(prog, res, tier):
+    r5_select_io(prog, res)
     r1_dispatch(prog, res)
     r2_outparam(prog, res)
     c09.r4_writer_tokens(prog, res)
